@@ -42,7 +42,7 @@ func checkC16(w *Worker) {
 		for _, f := range a.Flags {
 			if sf, ok := f.(*cli.StringFlag); ok && sf.Name == "config" {
 				if !strings.HasSuffix(sf.Value, "/.hranoprovod/config") {
-					hfail("the default configuration path is %q, documented as $HOME/.hranoprovod/config", sf.Value)
+					ofail("default-config-path", "the default configuration path is %q, documented as $HOME/.hranoprovod/config", sf.Value)
 				}
 				sf.Value = defaultCfg
 			}
